@@ -140,7 +140,15 @@ func (p *statsProcessor) GetFinalResultIfExists() (*iqr.IQR, bool) {
 func (p *statsProcessor) extractFinalStatsResults() (*iqr.IQR, error) {
 	// If searchResults is nil, it means there is no data to process
 	if p.searchResults == nil {
-		return nil, io.EOF
+		if p.processorType != structs.SegmentStatsCmd {
+			return nil, io.EOF
+		}
+		// Stats without a by clause have one row also over no input (count is 0), as when
+		// the search computes them itself or when the input had batches without records.
+		_, err := p.processMeasureOperations(iqr.NewIQR(p.qid))
+		if err != nil {
+			return nil, err
+		}
 	}
 
 	// Extract the results only once; extracting folds the collected stats
